@@ -69,12 +69,18 @@ class World(object):
         self.dagprinter = SmtDagPrinter(StringIO())          # a long-lived printer object
         self.generic = False
         self.factory_used = False
+        self.cg_declared = False
 
     def ensure_cg_declared(self):
         """The symbol that the command-generator probes talk about is declared (through the generator interface, which
-        does not reset the parser)."""
-        if self.parser.cache.get("cgx") is None:
+        does not reset the parser).  It is declared again only after a call that resets the parser by design (get_script,
+        parse_model): a declaration that a failing command made disappear must stay gone, so that the probe sees it."""
+        if not self.cg_declared:
             list(self.parser.get_command_generator(StringIO("(declare-fun cgx () Int)\n")))
+            self.cg_declared = True
+
+    def parser_was_reset(self):
+        self.cg_declared = False
 
     def ensure_generic_solver(self):
         """(lazily: creating a Factory probes for every solver wrapper)"""
@@ -127,6 +133,7 @@ def do_fail(world, fail):
                 from pysmt.parsing import HRParser
                 HRParser(env).parse(fail[1])
             elif kind == "smtlib-parse":
+                world.parser_was_reset()
                 world.parser.get_script(StringIO(fail[1]))
             elif kind == "array-nonconst-key":
                 _, it, d, k, v = fail
@@ -163,11 +170,13 @@ def do_fail(world, fail):
             elif kind == "model-text":
                 # the other two text entry points of the long-lived parser: get-model and get-value replies
                 _, which, text = fail
+                world.parser_was_reset()
                 if which == "parse_model":
                     world.parser.parse_model(StringIO(text))
                 else:
                     world.parser.get_assignment_list(StringIO(text))
             elif kind == "malformed-declaration":
+                world.parser_was_reset()
                 world.parser.get_script(StringIO(fail[1]))
             elif kind == "empty-preference-list":
                 world.factory_used = True
@@ -320,6 +329,7 @@ def parse_probe(world, text):
     """Probe through the long-lived parser object."""
     with world.env:
         try:
+            world.parser_was_reset()
             sc = world.parser.get_script(StringIO(text))
             return ("ok", sc.get_last_formula())
         except Exception as e:
@@ -469,6 +479,7 @@ def _check_history(run, probe, history, probes, ptexts):
             for W in (A, Bw):
                 with W.env:
                     try:
+                        W.parser_was_reset()
                         r_ = W.parser.parse_model(StringIO(text)) if which == "parse_model" else W.parser.get_assignment_list(StringIO(text))
                         if which == "parse_model":
                             r_ = (sorted((str(k), str(v)) for k, v in r_[0].items()),
